@@ -337,6 +337,38 @@ def run_struct(inst):
             ei = enc(lambda x, *h: mk(*h).inverse(x), xk, *H).item() if mflag else xv[k]
             same(fwd[k], ef, f"masked_forward[{k}]", {"transform": "masked", "clause": "routing", "inner": inst["inner"]})
             same(inv[k], ei, f"masked_inverse[{k}]", {"transform": "masked", "clause": "routing", "inner": inst["inner"]})
+            if not mflag:
+                # a masked-out entry must pass through untouched for EVERY input, also where the
+                # inner transform is undefined there (float semantics: 0 * NaN = NaN)
+                for direction, node in (("forward", fwd[k]), ("inverse", inv[k])):
+                    obl = sym.obligations([node])
+                    bad = [sym.band(c_, sym.eq(n_, const(0))) for c_, kd, n_ in obl if kd == "div"]
+                    bad += [sym.band(c_, sym.le(n_, const(0))) for c_, kd, n_ in obl if kd == "log"]
+                    bad += [sym.band(c_, sym.le(n_, const(-1))) for c_, kd, n_ in obl if kd == "log1p"]
+                    if not bad:
+                        res["counters"]["masked_out_total"] = res["counters"].get("masked_out_total", 0) + 1
+                        continue
+                    q = smt.Query(f"C17/masked/{direction}/defined[{k}]")
+                    for nme in sorted(sym.support(node)):
+                        q.bounds(nme, -1000.0, 1000.0)
+                    for a_ in assume: q.add(a_)
+                    q.add_any(bad)
+                    r = q.check(timeout=timeout)
+                    res["counters"][f"q_masked_defined_{r.status}"] = res["counters"].get(f"q_masked_defined_{r.status}", 0) + 1
+                    if r.status == "sat" and r.model:
+                        import jax.numpy as jnp
+                        xval = np.array([float(r.model.get(f"x{j}", 0.3)) for j in range(len(mask))])
+                        hv = [jnp.asarray(float(r.model.get(nm_, 1.0))) for nm_ in names]
+                        tr = T.MaskedTransform(jnp.asarray(mask), mk(*hv))
+                        got = np.asarray(getattr(tr, direction)(jnp.asarray(xval)))
+                        if not np.isfinite(got[k]) or abs(got[k] - xval[k]) > 1e-9 * (1 + abs(xval[k])):
+                            res["violations"].append({"signature": {"transform": "masked", "clause": "masked_out_passthrough", "inner": inst["inner"], "direction": direction},
+                                                      "what": f"MaskedTransform.{direction}: masked-out entry {k} with value {xval[k]} came back as {got[k]} (inner {inst['inner']} {dict(zip(names, map(float, hv)))})",
+                                                      "replay": {"inst": inst}})
+                        else:
+                            res["inconclusive"].append({"instance": inst, "query": f"masked_defined/{direction}", "reason": "model not reproduced"})
+                    elif r.status != "unsat":
+                        res["inconclusive"].append({"instance": inst, "query": f"masked_defined/{direction}", "reason": r.status})
     elif inst["t"] == "custom":
         ff = lambda x: 3.0 * x + jnp.tanh(x)
         gg = lambda y: (y - 2.0) / 7.0
